@@ -9,7 +9,7 @@ GTINS = ['38425876095074', '00000000000000', '98765432109213', '00012345678905']
 IBANS = ['BE31435411161155', 'GR1601101050000010547023795']
 
 X82 = 'A', 'zZ9', 'aB3-/.+_', 'a b'
-DATES6 = ['000101', '991231', '180200', '200229', '190228', '161200', '251100']
+DATES6 = ['000101', '991231', '180200', '200229', '190228', '161200', '251100', '990200', '690200', '680200', '500600']
 TIMES4 = ['0000', '2359', '1230']
 
 
@@ -56,7 +56,7 @@ def witnesses(ai, fmt, typ):
         if fmt == 'N10':
             return [d + t for d in ('000101', '991231', '200229') for t in TIMES4 if not d.endswith('00')]
         if fmt == 'N6[+N6]':
-            return ['180101', '180200', '180101180131', '991231000101']
+            return ['180101', '180200', '180101180131', '991231000101', '990200', '990200991200', '680100690100']
         if fmt == 'N6[+N4]':
             return ['180101', '1801011230', '9912312359', '1801010000']
         if fmt == 'N8[+N..4]':
